@@ -177,7 +177,7 @@ class Batch:
         mres = self.ctx.model.run_many([mapcase.w_case('mat', c) for c in eff])
         sres = self.ctx.model.run_many([mapcase.w_case('spec', c) for c in eff]) if want_spec else [None] * len(cases)
         # inside the domain of the end-to-end theorems (Props/C01.v engine_document_is_generation_rules_document and
-        # engine_document_with_joins_is_generation_rules_document; decided by the extracted predicates Model/Fragment.v theorem_applies / theorem_applies_joins) the Engine model and the Spec are PROVED equal on completed runs
+        # engine_document_with_joins_is_generation_rules_document; decided by the extracted predicates Model/Fragment.v theorem_applies / _joins / _quoted / _qobj; Props/C13.v for the quoted fragments) the Engine model and the Spec are PROVED equal on completed runs
         ares = self.ctx.model.run_many([['applies', mapcase.w_cfg(c['cfg']), mapcase.w_doc(c)] for c in eff]) if want_spec else [None] * len(cases)
         out = []
         for c, i, m, s, a in zip(eff, ires, mres, sres, ares):
